@@ -48,7 +48,7 @@ func Build() (string, error) {
 }
 
 type MapInfo struct {
-	Name                         string
+	Name                        string
 	Type, KeySize, ValSize, Max uint32
 }
 type ProgInfo struct {
@@ -132,8 +132,16 @@ func (d *Driver) str() (string, error) {
 	}
 	return string(b), nil
 }
-func (d *Driver) put32(v uint32) { var b [4]byte; binary.LittleEndian.PutUint32(b[:], v); d.w.Write(b[:]) }
-func (d *Driver) put64(v uint64) { var b [8]byte; binary.LittleEndian.PutUint64(b[:], v); d.w.Write(b[:]) }
+func (d *Driver) put32(v uint32) {
+	var b [4]byte
+	binary.LittleEndian.PutUint32(b[:], v)
+	d.w.Write(b[:])
+}
+func (d *Driver) put64(v uint64) {
+	var b [8]byte
+	binary.LittleEndian.PutUint64(b[:], v)
+	d.w.Write(b[:])
+}
 func (d *Driver) putName(n string) { d.w.WriteByte(byte(len(n))); d.w.WriteString(n) }
 
 func (d *Driver) info() error {
@@ -314,6 +322,30 @@ func (d *Driver) Run(pi int, placement int, frame []byte) (Result, error) {
 		return r, d.fail(err)
 	}
 	return r, nil
+}
+
+// SetState asks an enumerator-enabled driver to build its n-th built-in map state; returns the number of states (0 = no such state).
+func (d *Driver) SetState(n uint32) (uint32, error) {
+	d.w.WriteByte('S')
+	d.put32(n)
+	d.w.Flush()
+	return d.u32()
+}
+
+// Shape returns the n-th structured frame shape of the built-in enumerator (nil = exhausted).
+func (d *Driver) Shape(n uint32) ([]byte, error) {
+	d.w.WriteByte('F')
+	d.put32(n)
+	d.w.Flush()
+	l, err := d.u32()
+	if err != nil || l == 0 {
+		return nil, err
+	}
+	b := make([]byte, l)
+	if _, err := io.ReadFull(d.r, b); err != nil {
+		return nil, d.fail(err)
+	}
+	return b, nil
 }
 
 const (
